@@ -14,7 +14,7 @@ from typing import Any, List, Optional
 
 ROOTS = ["coro", "coro", "coro", "agen", "gen", "agen_thrown"]
 CORO_LINKS = ["await_coro", "await_gencoro", "await_wrapper", "await_gen", "agen_anext", "agen_asend", "agen_asend_agen", "with_del_self", "agen_athrow",
-              "agen_aclose", "async_for", "agen_anext_default", "aiter_anext_default", "with_static_exit", "tbhide_predicate", "await_proxy_gen", "agen_asend_obj"]
+              "agen_aclose", "async_for", "agen_anext_default", "aiter_anext_default", "aiter_anext_default_gen", "with_static_exit", "tbhide_predicate", "await_proxy_gen", "agen_asend_obj"]
 GEN_LINKS = ["yield_from"]
 ENDS = ["trap", "future", "future_falsy", "future_len0", "gen_proto", "duck_gen", "coro_proto"]
 
@@ -273,6 +273,27 @@ def build(spec: dict) -> Chain:
                 await anext(a, None)
                 await tail()
             return ch.reg(f())
+        if k == "aiter_anext_default_gen":
+            # ... whose __anext__ is a generator-based coroutine (types.coroutine): the wrapper holds a generator
+            class AIterG:
+                def __aiter__(s):
+                    return s
+
+                def __anext__(s):
+                    return ch.reg(s.step())
+
+                @types.coroutine
+                def step(s):
+                    x = aw(i + 1)
+                    yield from (x.__await__() if hasattr(x, "__await__") else x)
+                    return 1
+
+            async def f():
+                a = AIterG()
+                ch.keep.append(a)
+                await anext(a, None)
+                await tail()
+            return ch.reg(f())
         if k == "agen_asend":
             async def ag():
                 v = yield 0
@@ -498,6 +519,16 @@ def close(ch: Chain):
             pass
 
 
+class Leaf:
+    """An irreducible stack item."""
+
+    def __init__(self, name):
+        self.name = name
+
+    def __repr__(self):
+        return f"<{self.name}>"
+
+
 def run_origin_case(case: dict) -> dict:
     """For C16: origins along a suspended chain."""
     import stackscope
@@ -506,7 +537,16 @@ def run_origin_case(case: dict) -> dict:
     ch = build(case)
     problems = []
     try:
+        if case.get("hook") and frame_of(ch.x) is not None:
+            # the root frame's elaborate_frame hook hands back next_inner (documented as equivalent to None), alone or after an
+            # extra item: everything behind it moves back to the unwrap queue
+            extra = Leaf("extra")
+            hook_kind = case["hook"]
+            stackscope.elaborate_frame.register(frame_of(ch.x).f_code)(
+                lambda frame, nxt: nxt if hook_kind == "next" else (extra, nxt))
         st = stackscope.extract(ch.x)
+        if case.get("long") and st.error is not None:
+            problems.append(f"chain of {len(case['links'])} links: error {st.error!r} ({len(st.frames)} frames)")
         owners = {id(frame_of(o)): o for o in ch.owners if frame_of(o) is not None}
         for f in (origin_oracle(st, "chain: "), suspended_origin_oracle(st, owners, "chain: "), outermost_oracle(ch.x)):
             if f:
